@@ -202,7 +202,9 @@ def run(ctx: Ctx):
     wd = workdir(PID)
     cfg = ("SPECIFICATION Spec\nVIEW View\nINVARIANT ConstantsWithinBounds\nPROPERTY AllOrNothing\n"
            "PROPERTY AlarmReportIffEnabledChange\nPROPERTY ReadsChangeNothing\nPROPERTY SetListsAgree\n")
-    dump = not ctx.quick
+    # the relation grew to 4.4 M transitions (4 constants x alarms x variables): dumping and covering it edge by edge no longer fits in
+    # memory; the thorough tier model-checks the same relation and replays 10x more and longer random walks instead
+    dump = False
     r = tlc.run("GemData", cfg_text=cfg + ("ACTION_CONSTRAINT Dump\n" if dump else ""), workdir=wd,
                 workers=1 if dump else 16, what="gen", coverage=not dump, timeout=3600, heap="12g")
     tlc.require_ok(r, "GemData")
@@ -225,8 +227,8 @@ def run(ctx: Ctx):
     if len(alphabet) < 100:
         raise Machinery(f"alphabet too small: {len(alphabet)}")
     changers = [i for i in alphabet if i["k"] in ("SetEC", "AlarmEnable", "SetAlarm", "UpdateSV")]
-    for _ in range(300 if ctx.quick else 1500):
-        walks.append([rng.choice(changers) if rng.random() < 0.45 else rng.choice(alphabet) for _ in range(40)])
+    for _ in range(300 if ctx.quick else 3000):
+        walks.append([rng.choice(changers) if rng.random() < 0.45 else rng.choice(alphabet) for _ in range(40 if ctx.quick else 60)])
     jobs = [(b, ch, ctx.seed) for b, ch in enumerate(chunks(list(enumerate(walks, start=1)), 28))]
     recs = [r_ for batch in pmap(run_batch, jobs) for r_ in batch]
     for r_ in [r_ for r_ in recs if r_["outcome"] != "done" or r_.get("errors")][:3]:
@@ -258,8 +260,8 @@ def run(ctx: Ctx):
     from . import c13_clock
     c13_clock.check(ctx, wd, pmap)
     ctx.rule = ("histories = random walks of 40 requests over the monitor alphabet (121 requests: id lists incl. unknown/repeated/"
-                "text ids, constants below/at/inside/above bounds, alarm enable/list/set/clear, value updates); thorough adds walks "
-                "covering the complete transition relation; non-trivial = distinct (request, observation) with content; "
+                "text ids, constants below/at/inside/above bounds, alarm enable/list/set/clear, value updates); thorough: 3000 walks of 60 "
+                "requests; non-trivial = distinct (request, observation) with content; "
                 "predefined Clock variable: S1F3 at frozen equipment-clock instants (sub-second parts at and around every digit boundary, 5 dates) x TimeFormat 0/1/2 set through S2F15, each reply decided by ClockJudge")
     ctx.assumptions += ["in the history walks predefined SVs/ECs are masked except AlarmsEnabled / AlarmsSet and EstablishCommunicationsTimeout (Clock / TimeFormat: separate leg); 2 user SVs, "
                         "4 ECs (bounded, unbounded, predefined settings-backed, application-callback-backed), 2 alarms"]
